@@ -84,22 +84,29 @@ Print Assumptions C03_model_partial.
 
 (* the kernel well-formedness assumed above (unique mount ids; a line's parent id is never a
    later line, and a later line naming k as parent lies at or under k) is an invariant of the
-   kernel model: kept by umount(2), and by every mount(2) that appends one line with a fresh id *)
+   kernel model: kept by umount(2) and by mount(2) *)
 Theorem C03_kernel_inv_umount : forall ks t fl ks', kumount ks t fl = KOk ks' ->
   KernelInvP.kinv (ks_tab ks) ->
   KernelInvP.kinv (ks_tab ks') /\ (wf_table (ks_tab ks) = true -> wf_table (ks_tab ks') = true).
 Proof. exact KernelInvP.kumount_preserves. Qed.
 Print Assumptions C03_kernel_inv_umount.
 
+(* every successful mount(2) of the kernel model -- bind, recursive bind with all its submount
+   copies, overlay, any other file system, remount, propagation change -- keeps unique ids,
+   well-formed parent ids and the numbering ([numbered]: ids and parent ids are decimals of numbers
+   below the next id, ids from 2 on), as long as the next id still has at most 24 digits *)
 Theorem C03_kernel_inv_mount : forall fs ks src tgt fstype flags data ks',
   kmount fs ks src tgt fstype flags data = KOk ks' ->
-  KernelInvP.kinv (ks_tab ks) ->
-  ~ In (dec (ks_nextid ks)) (kids (ks_tab ks)) -> ~ In (dec (ks_nextid ks)) (map k_parent (ks_tab ks)) ->
-  (covering (ks_tab ks) tgt = None -> ~ In (bs "1") (kids (ks_tab ks))) ->
-  (has_flag flags MS_REC = true -> filter (fun m => under src (k_mp m)) (ks_tab ks) = []) ->
-  KernelInvP.kinv (ks_tab ks').
-Proof. exact KernelInvP.kmount_preserves. Qed.
+  KernelInvP.kinv2 ks -> (ks_nextid ks' <= KernelInvP.idmax)%N -> KernelInvP.kinv2 ks'.
+Proof. exact KernelInvP.kmount_preserves_all. Qed.
 Print Assumptions C03_kernel_inv_mount.
+
+(* ... and the table stays printable, provided the file-system type given to mount(2) has no blank *)
+Theorem C03_kernel_wf_table_mount : forall fs ks src tgt fstype flags data ks',
+  kmount fs ks src tgt fstype flags data = KOk ks' ->
+  wf_table (ks_tab ks) = true -> nospace fstype = true -> wf_table (ks_tab ks') = true.
+Proof. exact KernelInvP.kmount_wf_table. Qed.
+Print Assumptions C03_kernel_wf_table_mount.
 
 (* where the build-root hypotheses come from: LAYERS clean and absolute, the build-root setting a
    non-empty relative path of plain components; then every build root is
